@@ -94,7 +94,9 @@ pub fn run_case(case: &Value) -> Value {
     let mut files_out = Map::new();
 
     let mut group = if dev { TmplGroup::new_dev() } else { TmplGroup::new() };
-    let mut sub = if dev { TmplGroup::new_dev() } else { TmplGroup::new() };
+    // `sub_other_mode`: the imported group was created in the other mode (dev / not dev); the destination's mode governs
+    let sub_dev = dev != case.get("sub_other_mode").and_then(|x| x.as_bool()).unwrap_or(false);
+    let mut sub = if sub_dev { TmplGroup::new_dev() } else { TmplGroup::new() };
     for (i, (path, src)) in files.iter().enumerate() {
         let target = match split {
             Some(k) if i >= k => &mut sub,
